@@ -203,6 +203,12 @@ def raise_census(rep):
         rep.proved('C17.raise.stmt', 'frames', f'{n} raise statements; {len(bad_sites)} raise other classes or can fail while building the message, all converted by the handler of get_exec_params (C17.fallback.internal.*)',
                    function=f'{RENDER}', clause='raise census: every exception of the translation is NotImplementedError / SQLAlchemyError or is converted by the handler')
         return
+    handler_failed = any(st == FAILED for st in HANDLER.values())
+    if HANDLER and not handler_failed:
+        # the handler obligations are open (engine limit, not a refutation): the census cannot conclude either way
+        rep.undecided('C17.raise.stmt', 'frames', f'{len(bad_sites)} raise statements raise other classes and the handler contract C17.fallback.internal.* is undecided', function=f'{RENDER}',
+                      clause='raise census: every exception of the translation is NotImplementedError / SQLAlchemyError or is converted by the handler')
+        return
     seen = set()
     for fname, line, cls, text in bad_sites:
         oid = f'C17.raise.stmt.{fname}.{cls}'
